@@ -869,7 +869,9 @@ class Queue:
     def get(self, block=True, timeout=None):
         self._role('consumer')
         if block and timeout is None:
-            return self.s.op(self.lbl + '.get', lambda: len(self.q) > 0, self.q.popleft, self.shared)
+            # a bounded queue couples its two ends (whether a put finds room depends on how far the consumer has come): its gets are
+            # scheduling points, so that a consumer can be held back while the producer runs ahead
+            return self.s.op(self.lbl + '.get', lambda: len(self.q) > 0, self.q.popleft, self.shared or self.maxsize > 0)
         if block and timeout:
             def empty():
                 raise Empty()
